@@ -86,6 +86,7 @@ type Sched struct {
 	TornNum       int
 	TornDen       int
 	Ambient       int
+	Stall         bool // every timer/deadline the generator sets has already expired (frozen or starved process)
 	// RelPaths: change into the directory above the out dir and hand the generator relative paths
 	// (the way the CLI is normally used), instead of absolute ones.
 	RelPaths bool
@@ -144,6 +145,7 @@ func RunInProcess(inv Invocation, inDir, outDir string, s Sched, root string) (r
 	simos.PathMap = func(p string) string { return runDirRe.ReplaceAllString(strings.TrimPrefix(p, root), "") }
 	simos.CLIMode = false
 	simos.Ambient, verifhook.Ambient = s.Ambient, s.Ambient
+	verifhook.Stall = s.Stall
 	simos.Reset(s.FaultAt, s.Kind, s.TornNum, s.TornDen)
 	goroutinesBefore := runtime.NumGoroutine()
 	func() {
@@ -194,6 +196,7 @@ func RunInProcess(inv Invocation, inDir, outDir string, s Sched, root string) (r
 	}
 	simos.Reset(-1, simos.KNone, 1, 2)
 	simos.Ambient, verifhook.Ambient = 0, 0
+	verifhook.Stall = false
 	verifhook.ResetRun(nil, nil)
 	verifhook.EventLog = nil
 	return
@@ -206,7 +209,7 @@ func RunCLI(cli string, inv Invocation, inDir, outDir string, s Sched, tapeVals 
 		panic(err)
 	}
 	p := cliplan.Plan{Tape: tapeVals, AllActive: s.Active == nil, ClockOffsetNs: int64(s.ClockOffset), FaultAt: s.FaultAt, Kind: s.Kind,
-		TornNum: s.TornNum, TornDen: s.TornDen, Log: planFile + ".log", Masked: masked, Ambient: s.Ambient}
+		TornNum: s.TornNum, TornDen: s.TornDen, Log: planFile + ".log", Masked: masked, Ambient: s.Ambient, Stall: s.Stall}
 	for id := range s.Active {
 		p.Active = append(p.Active, id)
 	}
